@@ -130,10 +130,10 @@ def main(tier):
     chk = Check('C03', tier, '4/C03')
     bld = maps_build()
     grids = [((-6, 6), (-6, 6)), ((-5, 7), (-6.5, 5.5)), ((-6, 6.8), (-6, 6))] if tier == 'quick' else [((-6, 6), (-6, 6)), ((-5, 7), (-6.5, 5.5)), ((-6, 6.8), (-6, 6)), ((-7, 5), (-4, 8)), ((-6, 6), (-5, 7.5))]
-    ns = [(8, 1), (9, 2)] if tier == 'quick' else [(8, 1), (9, 2), (12, 1), (7, 3)]
+    ns = [(8, 1), (9, 2)] if tier == 'quick' else [(8, 1), (9, 2), (12, 1), (7, 3), (16, 2), (33, 1), (64, 1), (257, 1)]
     jobs = [(job_rf_field, (m, n, nb, q, p)) for m in ('lin', 'sin') for n, nb in ns for q, p in grids]
     jobs += [(job_drift_field, (n, nb, q, p)) for n, nb in ns for q, p in grids]
-    jobs += [(job_first_moment, (n, it, ax, r, 1, 3)) for n in (10, 9) for it in (2, 3, 4) for ax in (0, 1) for r in ((2, n - 3) if tier == 'quick' else range(n))]
+    jobs += [(job_first_moment, (n, it, ax, r, 1, 3)) for n in ((10, 9) if tier == 'quick' else (10, 9, 12, 13)) for it in (2, 3, 4) for ax in (0, 1) for r in ((2, n - 3) if tier == 'quick' else range(n))]
     jobs += [(job_rotation_algebra, ())]
     import mainparams
     jobs += [(mainparams.job_map_parameters, ('C03',))]      # O5: what main hands to the maps - angle * steps == 2*pi, slip factors
